@@ -98,7 +98,7 @@ type caseSink struct {
 func newSink(dir, prop, imports, caseType, judge string, shardSize int) *caseSink {
 	os.MkdirAll(dir, 0o755)
 	return &caseSink{dir: dir, prop: prop, imports: imports, caseType: caseType, judge: judge,
-		shardSize: shardSize, hist: map[string]int{}, nontriv: map[string]bool{}, start: time.Now(), extra: map[string]any{}}
+		shardSize: shardSize, hist: map[string]int{}, nontriv: map[string]bool{}, start: time.Now(), extra: map[string]any{"process_time_zone": processZone}}
 }
 
 // add records one case: coq is the Coq term (without id), desc the human-readable replay text,
